@@ -70,7 +70,18 @@ func (codec *wsCodec) ReadMessage() (*jsonrpc2.Message, error) {
 	if err != nil {
 		return nil, err
 	}
-	return codec.inner.ReadMessage()
+	msg, err := codec.inner.ReadMessage()
+	if err != nil {
+		return msg, err
+	}
+	// The JSON decoder stops at the end of the value, which is not
+	// necessarily the end of the frame (there is a trailing newline, at
+	// least). Skip the rest, otherwise the next frame header would be read
+	// from the middle of this frame.
+	if err := codec.r.Discard(); err != nil {
+		return nil, err
+	}
+	return msg, nil
 }
 
 func (codec *wsCodec) WriteMessage(msg *jsonrpc2.Message) error {
